@@ -54,7 +54,9 @@ class Exec(ExecBase):
 def prov_for(op, pl):
     """provenance of the D records an operation emits, in emission order."""
     k = op["op"]
-    if k == "transfer":
+    if k in ("transfer", "distribute"):
+        # a D record written by a transfer - or by a distribution that chose to pipette single steps instead of an
+        # R record - delivers what the A record before it took up
         return lambda j: {"op": "transfer"}
     if k == "dispense":
         comps = [st[4] for st in pl["steps"] if st[3] > 0]
